@@ -28,8 +28,9 @@ POOLS = {
     'neg':   lambda n: -1 - n,
     'mixed': lambda n: [n, 'm%d' % n, (n,), n + 0.25, ('t', n), 's p%d' % n][n % 6],
     'intstr': lambda n: n if n % 2 == 0 else 'v%d' % n,
+    'falsy': lambda n: (n + 1 if n < 10 else (['', 0, ()][n - 10] if n < 13 else n)),   # u10, u11, u12 are falsy names
 }
-POOL_NAMES = ['int', 'str', 'tuple', 'float', 'neg', 'mixed']
+POOL_NAMES = ['int', 'str', 'tuple', 'float', 'neg', 'mixed', 'falsy']
 
 
 class Names:
@@ -191,6 +192,21 @@ class Rej(Exception):
     pass
 
 
+class NoObject(Exception):
+    pass
+
+
+class _Handles:
+    """handle table whose lookup failure is a script error, not a KeyError of the library"""
+    def __init__(self, d):
+        self.d = d
+
+    def __getitem__(self, h):
+        if h not in self.d:
+            raise NoObject(h)
+        return self.d[h]
+
+
 class Executor:
     """runs op lines on the real library; one result line per op, in the driver's format"""
 
@@ -277,6 +293,8 @@ class Executor:
             return 'rej'
         except Rej:
             return 'rej'
+        except NoObject as e:
+            return 'err no-object ' + str(e)
         except Exception as e:      # anything else is neither KeyError nor ValueError
             return 'crash:' + type(e).__name__
 
@@ -286,7 +304,7 @@ class Executor:
             return ''
         op = t[0]
         h = t[1] if len(t) > 1 else ''
-        O = self.objs
+        O = _Handles(self.objs)
         if op == 'reset':
             self.reset(t[1] if len(t) > 1 else None)
             return 'ok -'
@@ -318,6 +336,10 @@ class Executor:
         if op == 'relabel':
             m = O[h].relabel(self.ren(t[2]))
             return 'ok {' + ','.join('%s:%s' % (self.T(a), self.T(b)) for a, b in m.items()) + '}'
+        if op == 'relabel1':
+            O[h].relabelSimplex(self.name(t[2]), self.name(t[3])); return 'ok -'
+        if op == 'delsorder':
+            O[h].deleteSimplices(O[h].simplicesOfOrder(int(t[2]))); return 'ok -'
         if op == 'relabeldisj':
             m = O[h].relabelDisjointFrom(O[t[2]])
             return 'ok {' + ','.join('%s:%s' % (self.T(a), self.T(b)) for a, b in m.items()) + '}'
@@ -483,7 +505,7 @@ class Executor:
         if q == 'attr':
             return 'ok ' + fmt_dict(c[self.name(a[1])])
         if q in ('le', 'lt', 'ge', 'gt', 'eq', 'ne'):
-            d = self.objs[a[1]]
+            d = _Handles(self.objs)[a[1]]
             r = {'le': lambda: c <= d, 'lt': lambda: c < d, 'ge': lambda: c >= d, 'gt': lambda: c > d,
                  'eq': lambda: c == d, 'ne': lambda: c != d}[q]()
             return 'ok ' + B(r)
